@@ -229,7 +229,7 @@ def prop_C04(repo, tier):
             ok = ops == {(('remove', 'roCreate', 'RO'), ('insert', 'roCreate', 'COPY'))}
             res.add('RO-REPLACE', f'{cname}.merge', 'remove(roCreate) ; insert(deepcopy re-tagged roCreate)', ok, '' if ok else f'root operations: {sorted(ops)}')
     stale_cache(res, repo, merges=True, jobs=('msgaccessors',), funcs=lambda f: f.split('.')[-1] in ('story', 'stories', 'item', 'items', 'source_stories', 'source_story', 'base_tag'))
-    res.floors = {'PAYLOAD-PURE': 12, 'SPLICE': 2, 'PAYLOAD-ALL': 8, 'RO-REPLACE': 1}
+    res.floors = {'PAYLOAD-PURE': 12, 'SPLICE': 1, 'PAYLOAD-ALL': 8, 'RO-REPLACE': 1}
     res.explanation = (
         'Static analysis of the payload flow in all merges: every carried element reaches its insertion through identity or '
         'copy.deepcopy (PAYLOAD-PURE), no message/payload subtree is edited except the two documented conversions (retag to '
